@@ -158,10 +158,13 @@ func New(startTime time.Time, logLevel slog.Level) *Handler {
 	// Galileo keeps GPS time.
 	startOfGalileoWeek := startOfGPSWeek
 
-	// Set the stored timestamps to match the start time.
-	timestampFromPreviousGPSMessage := (uint(startTime.Sub(startOfGPSWeek).Milliseconds()))
+	// The start time only has to be in the same week as the first observation,
+	// which may be earlier in that week than the start time (for example when
+	// displaying a recorded file).  So the stored timestamps start at the
+	// beginning of the week: the first message never looks like a rollover.
+	var timestampFromPreviousGPSMessage uint = 0
 	timestampFromPreviousGalileoMessage := timestampFromPreviousGPSMessage
-	timestampFromPreviousBeidouMessage := (uint(startTime.Sub(startOfBeidouWeek).Milliseconds()))
+	var timestampFromPreviousBeidouMessage uint = 0
 
 	handler := Handler{
 		startOfGPSWeek:                      startOfGPSWeek,
